@@ -94,10 +94,23 @@ fn one(ci: usize, plan: &Value, di: usize, table: &Table, dir: &str) -> Value {
     let crlf = plan["crlf"].as_bool().unwrap();
     let file = plan["file"].as_bool().unwrap();
     let doc = build_doc_layout(table, crlf, (ci + di) % 2 == 0, (ci + di) % 3 == 2);
-    let a = plan["a"].as_u64().unwrap() as usize % doc.spans.len();
+    let mut a = plan["a"].as_u64().unwrap() as usize % doc.spans.len();
+    let anchor = plan["anchor"].as_str().unwrap_or("nth");
+    if anchor == "after_default" {
+        // the first assignment from a onwards (cyclically) that has a DEFAULT
+        let n = doc.spans.len();
+        match (0..n).map(|k| (a + k) % n).find(|&k| tokenize(&doc.text[doc.spans[k].0..doc.spans[k].1]).iter().any(|t| &doc.text[doc.spans[k].0 + t.start..doc.spans[k].0 + t.end] == "DEFAULT")) {
+            Some(k) => a = k,
+            None => return json!({"ev": "errpos", "case": ci, "doc": di, "plan": plan, "status": "noanchor", "is_file": file}),
+        }
+    }
     let (s0, s1) = doc.spans[a];
     let toks: Vec<Tok> = tokenize(&doc.text[s0..s1]);
-    let t = plan["t"].as_u64().unwrap() as usize % toks.len().max(1);
+    let t = match anchor {
+        "after_default" => (toks.iter().position(|t| &doc.text[s0 + t.start..s0 + t.end] == "DEFAULT").unwrap() + 1).min(toks.len() - 1),
+        "last" => toks.len().saturating_sub(1),
+        _ => plan["t"].as_u64().unwrap() as usize % toks.len().max(1),
+    };
     let tok = &toks[t];
     let (ts, te) = (s0 + tok.start, s0 + tok.end);
     let stuff = match plan["stuff"].as_str().unwrap() {
@@ -187,12 +200,17 @@ pub fn drive(args: &[String]) -> i32 {
     let per_plan: usize = util::arg(args, "--docs").and_then(|s| s.parse().ok()).unwrap_or(3);
     let tables: Vec<Table> = sets.iter().map(Table::from_json).filter(|t| !t.defs().is_empty()).collect();
     let jobs: Vec<(usize, &Value)> = plans.iter().enumerate().collect();
+    // documents that have a DEFAULT somewhere, for the plans anchored there
+    let with_default: Vec<usize> = (0..tables.len()).filter(|i| tables[*i].text().contains(" DEFAULT ")).collect();
     let events = util::par_chunks(&jobs, 16, util::threads(), |_, chunk| {
         run::install_panic_hook();
         let mut evs = vec![];
         for (ci, p) in chunk {
             for k in 0..per_plan {
-                let di = (ci * 5 + k * 7) % tables.len();
+                let mut di = (ci * 5 + k * 7) % tables.len();
+                if p["anchor"] == "after_default" && !with_default.is_empty() {
+                    di = with_default[(ci * 5 + k * 7) % with_default.len()];
+                }
                 evs.push(one(*ci, p, di, &tables[di], &dir));
             }
         }
